@@ -884,3 +884,21 @@ mod tests {
         assert_eq!(local_specs.len(), 1);
     }
 }
+
+/// Forwarders for the external verification harnesses (see `crate::verif_hooks`). One call each, no logic.
+#[cfg(any(kani, mmtk_verif))]
+pub mod verif_hooks {
+    use super::*;
+    pub fn verify_no_overlap_contiguous(a: &SideMetadataSpec, b: &SideMetadataSpec) -> Result<()> {
+        super::verify_no_overlap_contiguous(a, b)
+    }
+    pub fn verify_global_specs(g: &[SideMetadataSpec]) -> Result<()> {
+        super::verify_global_specs(g)
+    }
+    pub fn verify_global_specs_total_size(g: &[SideMetadataSpec]) -> Result<()> {
+        super::verify_global_specs_total_size(g)
+    }
+    pub fn verify_local_specs_size(l: &[SideMetadataSpec]) -> Result<()> {
+        super::verify_local_specs_size(l)
+    }
+}
